@@ -421,6 +421,18 @@ class Run:
                     acc.hit("reopen-after-renumbering")
                 else:
                     acc.count("renumbering_selfcheck_failed")
+            if op.get("jpg_alias") and b'"image/jpeg"' in zipfile.ZipFile(io.BytesIO(data)).read("[Content_Types].xml"):
+                # the deck as another producer writes it: JPEG parts typed 'image/jpg' (an alias python-pptx knows); they must load as
+                # image parts all the same - same bytes re-added later are still recognised, picture.image still answers
+                zin = zipfile.ZipFile(io.BytesIO(data))
+                out = io.BytesIO()
+                with zipfile.ZipFile(out, "w", zipfile.ZIP_DEFLATED) as zf:
+                    for info in zin.infolist():
+                        blob = zin.read(info)
+                        zf.writestr(info.filename, blob.replace(b'"image/jpeg"', b'"image/jpg"') if info.filename == "[Content_Types].xml" else blob)
+                data = out.getvalue()
+                self.jpg_alias = True
+                acc.hit("reopen-with-image/jpg-alias")
             prs = pptx.Presentation(io.BytesIO(data))
             self.reopened = True
             self.check_blobs(prs)
@@ -527,7 +539,7 @@ class Run:
                 continue
             for n in ns:
                 ext = n.rsplit(".", 1)[1] if "." in n.rsplit("/", 1)[1] else ""
-                if ext not in EXTS[fmt] or pkg.ctype(n) != CTYPE[fmt]:
+                if ext not in EXTS[fmt] or (pkg.ctype(n) != CTYPE[fmt] and not (fmt == "jpeg" and pkg.ctype(n) == "image/jpg" and getattr(self, "jpg_alias", False))):
                     self.bad("ext-or-type-from-filename:%s" % fmt, "%s has content type %r but holds a %s image" % (n, pkg.ctype(n), fmt))
         for blob, i in self.added.items():
             if blob not in by_bytes:
@@ -643,7 +655,7 @@ def gen_history(i):
     ops = [{"op": "slide"}]
     for j in range(n):
         if j == cut:
-            ops.append({"op": "reopen", "gap": rnd.randrange(1 << 30) if rnd.random() < 0.6 else None})
+            ops.append({"op": "reopen", "gap": rnd.randrange(1 << 30) if rnd.random() < 0.6 else None, "jpg_alias": rnd.random() < 0.4})
             forced = addition(ENTRY[i % len(ENTRY)])
             if rnd.random() < 0.8:  # the forced entry point re-adds an image from before the re-open
                 forced["img"] = rnd.choice(used[:-1]) if used[:-1] else forced["img"]
@@ -656,7 +668,7 @@ def gen_history(i):
         elif r < 0.16:
             ops.append({"op": "save"})
         elif r < 0.24:
-            ops.append({"op": "reopen", "gap": rnd.randrange(1 << 30) if rnd.random() < 0.5 else None})
+            ops.append({"op": "reopen", "gap": rnd.randrange(1 << 30) if rnd.random() < 0.5 else None, "jpg_alias": rnd.random() < 0.4})
         else:
             ops.append(addition(rnd.choice(["pic"] * 6 + ["grp", "ph", "movie", "ole"])))
     return {"recipes": recipes, "ops": ops}
